@@ -444,6 +444,8 @@ fn c14_dom<D: Dom>(cx: &RunCtx) {
         }
     };
     tok_run::<D>(cx, "E-TOK Σ_ops∪fn x placeholder pool", a, if quick { 5 } else { 6 }, 4, if quick { 3 } else { 4 }, &k, Some(&subst), 2400);
+    // the same two oracles (reference with @ bound, literal substitution) around every function name in turn
+    crate::checks::tok_rotating_with::<D>(cx, if quick { 3 } else { 4 }, &k, Some(&subst), true);
 }
 
 pub fn c14(cx: &RunCtx) {
